@@ -1,12 +1,14 @@
 #!/bin/bash
-# usage: tools/seedcheck.sh <patch.diff> <prop> [<prop>...]   -- applies a seeded change to /repo, runs the quick checks, reverts
+# usage: tools/seedcheck.sh <patch.diff> <prop> [<prop>...]
+# Applies a seeded change to a scratch worktree of /repo (never to /repo itself),
+# runs the quick checks against it (GOSX_REPO) and removes the worktree.
 set -u
-patch=$1; shift
-cd /repo || exit 2
-if ! git diff --quiet -- . ':!src/visor/testdata/data.db.nosig'; then echo "/repo not clean"; exit 2; fi
-git apply "$patch" || { echo "patch does not apply"; exit 2; }
-trap 'git -C /repo checkout -- . ; echo "[seedcheck] /repo restored"' EXIT
+patch=$(readlink -f "$1"); shift
+wt=$(mktemp -d /tmp/sc-XXXXXX); rmdir "$wt"
+git -C /repo worktree add --detach "$wt" HEAD >/dev/null 2>&1 || { echo "cannot create worktree"; exit 2; }
+trap 'git -C /repo worktree remove --force "$wt" >/dev/null 2>&1; echo "[seedcheck] scratch worktree removed"' EXIT
+git -C "$wt" apply "$patch" || { echo "patch does not apply"; exit 2; }
 for p in "$@"; do
   echo "=== $p"
-  (cd /verif && timeout ${SEED_TIMEOUT:-900} ./bin/gosx check $p --no-evidence ${SEED_ARGS:-} 2>&1 | grep -E "^(VIOLATION|OK|INCONCLUSIVE|KNOWN)|counterexample|problem" | cut -c1-300 | head -${SEED_LINES:-12}; echo "exit=${PIPESTATUS[0]}")
+  (cd /verif && GOSX_REPO="$wt" timeout ${SEED_TIMEOUT:-900} ./bin/gosx check $p --no-evidence ${SEED_ARGS:-} 2>&1 | grep -E "^(VIOLATION|OK|INCONCLUSIVE|KNOWN)|counterexample|problem" | cut -c1-300 | sort | uniq -c | head -${SEED_LINES:-12}; echo "exit=${PIPESTATUS[0]}")
 done
